@@ -170,6 +170,17 @@ def ref_channel(cs, n, slots=None):
             det[t] = det[t] + d[k]
             if not l1.ref_is_detuned_delay(sl.type):
                 phase_at[t] = facade._unwrap0(sl.type.phase)
+    # "the EOM off-detuning while idling in EOM mode": inside an EOM block every nanosecond that no pulse slot covers
+    # sits at the block's off-detuning (whatever kind of slot the scheduler chose to represent the idle time with)
+    covered = set()
+    for sl in (cs.slots if slots is None else slots):
+        if isinstance(sl.type, Pulse):
+            covered.update(range(sl.ti, sl.tf))
+    for b in cs.eom_blocks:
+        end = n if b.tf is None else min(b.tf, n)
+        for t in range(max(b.ti, 0), end):
+            if t not in covered:
+                det[t] = det[t] + float(b.detuning_off)
     return amp, det, phase_at
 
 
